@@ -13,8 +13,8 @@ class C30(M.MpiCheck):
     prof = dict(name='C30', np=(2, 4), nmsg=dict(quick=(4, 14), thorough=(4, 20)), ncomm=(0, 0), wild=0, probes=0.3,
                 types='derived', pack=1, cap=6000)
     own = ('layout-', 'xfer', 'pack', 'unpack', 'packsize', 'count-type')
-    max_reported = 14
-    budgets = {'quick': dict(runs=1500, wall=70), 'thorough': dict(runs=24000, wall=780)}
+    max_reported = 6
+    budgets = {'quick': dict(runs=1500, wall=40), 'thorough': dict(runs=24000, wall=780)}
 
     def nontrivial(self, plan, res):
         return res['stats'].get('types_checked', 0) >= 1 and res['stats'].get('recvs_checked', 0) >= 1
